@@ -187,6 +187,32 @@ class Mode:
                 return True
         return False
 
+    def _none_test_infeasible(self, fn, t, pol, A: dict, stack: tuple) -> bool:
+        """`X is None` (or its negation) where X is a call of a mode-sensitive function whose flags
+        are fixed by A: infeasible when the callee, under those flags, cannot produce that outcome
+        (e.g. standardize_prefix(strict=True) never returns None)."""
+        key, p2 = self._canon(t)
+        if not (op(key) == "cmp" and key[1] == "is" and is_const(key[3], None)):
+            return False
+        asserts_none = (pol == p2)
+        x = key[2]
+        if op(x) != "call":
+            return False
+        callee = self.resolve(fn, x)
+        if callee is None or callee.qualname in stack or not any(callee.param(fl) is not None for fl in FLAGS):
+            return False
+        can_none = can_value = False
+        for A2 in self.callee_assignments(callee, x, A):
+            r = self.analyse(callee, A2, stack + (fn.qualname,))
+            if not r.returns and not r.raises:
+                return False  # recursion cut-off or unknown: keep the path
+            for rt, _ in r.returns:
+                if is_const(rt, None):
+                    can_none = True
+                else:
+                    can_value = True
+        return (asserts_none and not can_none) or (not asserts_none and not can_value)
+
     def _paths(self, fn, s: Summary, paths: list[Path], A, stack, res: ModeResult, handlers: tuple, outer_guards: tuple = ()) -> None:
         for p in paths:
             ok = True
@@ -197,7 +223,7 @@ class Mode:
             for ev in p.events:
                 if ev.kind == "guard":
                     guards.append((ev.a, ev.b))
-                    if not self.feasible(guards, A):
+                    if not self.feasible(guards, A) or self._none_test_infeasible(fn, ev.a, ev.b, A, stack):
                         ok = False
                         break
                 if ev.kind == "except":
